@@ -3,6 +3,7 @@
 package syntax
 
 import (
+	"encoding/json"
 	"encoding/base64"
 	"fmt"
 	"regexp"
@@ -31,9 +32,38 @@ func mkInput(x string) InputCase {
 	return InputCase{B64: base64.StdEncoding.EncodeToString([]byte(x)), Text: strconv.QuoteToASCII(x)}
 }
 
+// repMagic marks an input that is given as "prefix + symbol repeated n times" instead of byte for byte
+// (inputs of several megabytes do not fit the progress area and make unwieldy replay files).
+const repMagic = "\x01repeat:"
+
+func repeatedInput(pre, sym string, n int) InputCase {
+	spec, _ := json.Marshal(map[string]any{"pre": pre, "sym": sym, "n": n})
+	return InputCase{B64: base64.StdEncoding.EncodeToString([]byte(repMagic + string(spec))), Text: fmt.Sprintf("%q followed by %q x %d", pre, sym, n)}
+}
+
+func expandRepeated(raw string) string {
+	if !strings.HasPrefix(raw, repMagic) {
+		return raw
+	}
+	var spec struct {
+		Pre, Sym string
+		N        int
+	}
+	if json.Unmarshal([]byte(strings.TrimPrefix(raw, repMagic)), &spec) != nil {
+		return raw
+	}
+	return spec.Pre + strings.Repeat(spec.Sym, spec.N)
+}
+
 func (c InputCase) input() string {
 	b, _ := base64.StdEncoding.DecodeString(c.B64)
-	return string(b)
+	return expandRepeated(string(b))
+}
+
+// payload is what is published as the case in flight: the compact form when there is one.
+func (c InputCase) payload() []byte {
+	b, _ := base64.StdEncoding.DecodeString(c.B64)
+	return b
 }
 
 // parse runs the real parser; a panic on the calling goroutine is reported as such.
